@@ -216,3 +216,46 @@ func VH_C03_valueNodes() {
 		vCover("empty-struct-node-visited")
 	}
 }
+
+// action names are opaque strings: ANY two names x, y given to Connect and ANY name z returned by
+// post (symbolic strings, including names with separators, blanks, other spellings of "default")
+// are routed by plain equality after the single normalisation "" -> "default"; the later Connect
+// wins when x == y
+type c03NameProbe struct {
+	visits int
+	act    Action
+}
+
+func (n *c03NameProbe) Prep(ctx context.Context, s *SharedStore) (any, error) { n.visits++; return nil, nil }
+func (n *c03NameProbe) Exec(ctx context.Context, p any) (any, error)          { return nil, nil }
+func (n *c03NameProbe) Post(ctx context.Context, s *SharedStore, p, e any) (Action, error) {
+	return n.act, nil
+}
+
+func VH_C03_actionNames() {
+	vUnwind(8)
+	x, y, z := vNondet[Action]("x"), vNondet[Action]("y"), vNondet[Action]("z")
+	a := &c03NameProbe{act: z}
+	b, c := &c03NameProbe{act: "stop-here"}, &c03NameProbe{act: "stop-here"}
+	flow := NewFlow(a)
+	flow.Connect(a, x, b)
+	flow.Connect(a, y, c)
+	err := flow.Run(vNewCtx(), NewSharedStore())
+	vAssert(err == nil, "routing-never-fails")
+	vAssert(a.visits == 1, "start-node-runs")
+	zz := z
+	if zz == "" {
+		zz = DefaultAction
+	}
+	switch {
+	case zz == y:
+		vCover("routed-by-the-later-connect")
+		vAssert(c.visits == 1 && b.visits == 0, "visited-node-is-the-one-the-table-determines")
+	case zz == x:
+		vCover("routed-by-the-earlier-connect")
+		vAssert(b.visits == 1 && c.visits == 0, "visited-node-is-the-one-the-table-determines")
+	default:
+		vCover("no-connection-for-the-action")
+		vAssert(b.visits == 0 && c.visits == 0, "flow-ends-exactly-where-the-table-ends")
+	}
+}
